@@ -1281,6 +1281,10 @@ def value_for(ch, kind, cur, nasty):
     r = ch.rounded
     if cur is not None and math.isfinite(cur) and ch.chance(0.08):
         return cur
+    if cur is not None and math.isfinite(cur) and cur != 0 and \
+            ch.chance(0.08):
+        # a trim far smaller than the value itself is still an edit
+        return cur * (1 + ch.pick([2e-6, -3e-7, 1e-9], tag='trim'))
     if cur is not None and math.isfinite(cur) and ch.chance(0.05):
         return -cur
     wild = ch.chance(nasty)
